@@ -141,6 +141,7 @@ class _Normalizer:
                 if isinstance(st, ast.AugAssign) and isinstance(st.target, ast.Name):
                     aug.add(st.target.id)
             self.globals_rebound |= aug
+            self._each_function(m, self._guard_identity)
             for rnd in range(5):
                 before = self.stats['inlined_calls'] + self.stats.get('fused_generators', 0)
                 self._each_function(m, self._inline_in_function)
@@ -2766,6 +2767,115 @@ class _Normalizer:
                 out.extend(split(st))
             return out
         fnode.body = walk_body(fnode.body)
+
+    # ------------------------------------------------------------------ 1c. checks that hand their argument back
+    def _guard_functions(self):
+        """{function key: parameter name} for new helper functions that return one of their parameters unchanged on every
+        returning path (``def check(name, value, code): ...raise...; return value``): a call of one is its argument, evaluated
+        after the check ran"""
+        got = getattr(self, '_guards', None)
+        if got is None:
+            got = {}
+            for fi in self.repo.all_functions():
+                if fi.parent is not None or not self.repo.is_helper(fi) or fi.kind not in ('function', 'staticmethod'):
+                    continue
+                a = fi.node.args
+                if a.vararg or a.kwarg or a.posonlyargs:
+                    continue
+                rets = [n for n in ast.walk(fi.node) if isinstance(n, ast.Return)]
+                if not rets or any(isinstance(n, (ast.Yield, ast.YieldFrom, ast.Lambda, ast.FunctionDef)) and n is not fi.node for n in ast.walk(fi.node)):
+                    continue
+                names = {n.value.id if isinstance(n.value, ast.Name) else None for n in rets}
+                if len(names) != 1 or None in names:
+                    continue
+                p = names.pop()
+                if p not in [x.arg for x in a.args + a.kwonlyargs]:
+                    continue
+                if any(isinstance(n, ast.Name) and n.id == p and isinstance(n.ctx, (ast.Store, ast.Del)) for n in ast.walk(fi.node)):
+                    continue
+                if not any(isinstance(n, ast.Raise) for n in ast.walk(fi.node)):
+                    continue
+                got[fi.key] = p
+            self._guards = got
+        return got
+
+    def _guard_identity(self, fnode, cls, local):
+        """``x = check('name', v, 'H')`` -> ``check('name', v, 'H'); x = v`` for the functions of _guard_functions, when ``v`` is a
+        plain name / attribute chain / constant and nothing with an effect is evaluated before the call in its statement"""
+        from .srcmodel import FuncRef
+        guards = self._guard_functions()
+        if not guards:
+            return
+        me = self
+
+        def guard_arg(call):
+            try:
+                r = me.repo.resolve_expr(call.func, me.m) if not isinstance(call.func, ast.Name) else me.repo.resolve_name(call.func.id, me.m)
+            except Exception:
+                return None
+            if isinstance(call.func, ast.Name) and call.func.id in local:
+                return None
+            if not isinstance(r, FuncRef):
+                return None
+            key = '%s:%s' % (r.module, r.qualname)
+            p = guards.get(key)
+            if p is None:
+                return None
+            try:
+                fi = me.repo.func(r.module, r.qualname)
+            except Exception:
+                return None
+            if fi.node is fnode:
+                return None
+            params = [x.arg for x in fi.node.args.args]
+            if any(isinstance(a, ast.Starred) for a in call.args) or any(k.arg is None for k in call.keywords):
+                return None
+            arg = None
+            if p in params and params.index(p) < len(call.args):
+                arg = call.args[params.index(p)]
+            for k in call.keywords:
+                if k.arg == p:
+                    arg = k.value
+            if arg is None or not _is_simple_or_const(arg):
+                return None
+            return arg
+
+        for blk in _blocks(fnode):
+            i = 0
+            while i < len(blk):
+                st = blk[i]
+                i += 1
+                if not isinstance(st, _SIMPLE_STMTS) or (isinstance(st, ast.Expr) and isinstance(st.value, ast.Call) and guard_arg(st.value) is not None):
+                    continue
+                calls = _calls_in_order(st)
+                hoisted = []
+                for c_ in calls:
+                    arg = guard_arg(c_)
+                    if arg is None:
+                        break            # something else runs before any later guard: leave those where they are
+                    if not all(_is_simple_or_const(a) for a in c_.args) or not all(_is_simple_or_const(k.value) for k in c_.keywords):
+                        break
+                    hoisted.append((c_, arg))
+                if not hoisted:
+                    continue
+
+                class R(ast.NodeTransformer):
+                    def visit_Call(self_, n):
+                        for c_, arg in hoisted:
+                            if n is c_:
+                                return copy.deepcopy(arg)
+                        return self_.generic_visit(n)
+                pre = []
+                for c_, _arg in hoisted:
+                    e_ = ast.Expr(value=copy.deepcopy(c_))
+                    ast.copy_location(e_, st)
+                    ast.fix_missing_locations(e_)
+                    pre.append(e_)
+                new_st = R().visit(st)
+                ast.fix_missing_locations(new_st)
+                blk[i - 1:i] = pre + [new_st]
+                i += len(pre)
+                me.stats['guard_identity'] = me.stats.get('guard_identity', 0) + len(pre)
 
     # ------------------------------------------------------------------ 1. helpers
     def _helper_of(self, call: ast.Call, cls):
